@@ -16,7 +16,16 @@ def main():
         seed = int(os.environ.get("VERIF_SEED", "0"))
     except ValueError:
         seed = 0
-    sys.exit(run_pack(a.prop, a.tier, a.replay, seed))
+    try:
+        rc = run_pack(a.prop, a.tier, a.replay, seed)
+    except SystemExit:
+        raise
+    except BaseException:    # noqa: BLE001 - anything the pack runner did not turn into a verdict is a CHECKER error, never a verdict
+        import traceback
+        traceback.print_exc()
+        print("CHECKER-ERROR property=%s (unexpected exception in the checker itself; exit 2 = no verdict)" % a.prop)
+        sys.exit(2)
+    sys.exit(rc)
 
 
 if __name__ == "__main__":
